@@ -149,6 +149,18 @@ def _plan_cfgs(tier):
     return out
 
 
+def _dense_cfgs(tier):
+    """Stand-alone interpolators on user coordinates packed into a thin shell around one atom: 10^4 - 4x10^4 points in one
+    or two radial spline intervals (molecular grids of small systems put at most a few thousand there)."""
+    out = []
+    n = 2 if tier == "quick" else 10
+    for i in range(n):
+        out.append(dict(kind="dense", mol=["HF", "H2O"][i % 2], npts=[30000, 12000, 40000, 9001, 17000][i % 5],
+                        r0=[2.0, 0.7, 4.5][i % 3], width=[0.05, 0.02, 0.2][(i // 2) % 3], lmax=[3, 2, 4][i % 3],
+                        n0n1=[(3, 1), (2, 0), (4, 0), (1, 1)][i % 4], atom=i % 2, threads=[3, 1, 7, 16][i % 4]))
+    return out
+
+
 def _sdmx_cfgs(tier, rng):
     kinds = ["sdmx", "sdmxg", "sdmx1", "sdmxg1", "sdmxfull"]
     mols = ["HF", "H2O", "He", "NH3", "LiH", "CH3F", "HOF", "H2O2"]
@@ -206,12 +218,14 @@ def _weight(c):
         return 0.5 + NATM[c["mol"]] * c["ngrid"] / 1000.0 * (2 if c["skind"] == "sdmxfull" else 1)
     if c["kind"] == "ks":
         return 3.0
+    if c["kind"] == "dense":
+        return 2.0
     return 0.3
 
 
 def gen_cases(tier, seed):
     rng = rng_for(seed, PROP_NO, 0)
-    cfgs = _nldf_cfgs(tier, rng) + _plan_cfgs(tier) + _sdmx_cfgs(tier, rng) + _ks_cfgs(tier)
+    cfgs = _nldf_cfgs(tier, rng) + _plan_cfgs(tier) + _sdmx_cfgs(tier, rng) + _ks_cfgs(tier) + _dense_cfgs(tier)
     cases = []
     itag = {"onsite_direct": "dir", "onsite_spline": "spl", "train_gen": "tg"}
     for i, c in enumerate(cfgs):
@@ -221,12 +235,15 @@ def gen_cases(tier, seed):
             name = "plan-v%s-%s-%s-l%.1f%s" % (c["ver"], c["plan"][:3], c["order"], c["lam"], "-r1" if c.get("rep") else "")
         elif c["kind"] == "sdmx":
             name = "sdmx-%s-%s-%s-n%d" % (c["skind"], c["mol"], c["basis"], c["ngrid"])
+        elif c["kind"] == "dense":
+            name = "dense-%s-n%d-r%.1f-L%d" % (c["mol"], c["npts"], c["r0"], c["lmax"])
         else:
             name = "ks-%s-%s-%s" % (c["cfg"]["family"], c["cfg"]["spin"], c["cfg"]["mol"])
         cases.append({"id": "c%04d-%s" % (i, name), "cfg": c, "seed": seed, "idx": 100 + i, "_threads": c["threads"],
                       "_weight": _weight(c), "_timeout": 1500})
     # a small subset again under ASan+UBSan (stride / offset mistakes that leave the array show there)
-    nasan = {"nldf": 4, "plan": 1, "sdmx": 3, "ks": 0} if tier == "quick" else {"nldf": 24, "plan": 4, "sdmx": 12, "ks": 2}
+    nasan = ({"nldf": 4, "plan": 1, "sdmx": 3, "ks": 0, "dense": 0} if tier == "quick"
+             else {"nldf": 24, "plan": 4, "sdmx": 12, "ks": 2, "dense": 1})
     chosen = []
     count = {k: 0 for k in nasan}
     classes = set()
@@ -829,11 +846,36 @@ def _finish(ctx, cfg):
                     "tolerance": TOL})
 
 
+def _run_dense(case, rec, rng):
+    from pyscf import gto
+    from ciderpress.dft.lcao_interpolation import ATCBasis, LCAOInterpolator
+    from ciderpress.pyscf.nldf_convolutions import aug_etb_for_cider, get_gamma_lists_from_mol
+    cfg = case["cfg"]
+    for k in ("mol", "npts", "r0", "width", "lmax", "n0n1"):
+        rec.tag("dense_" + k, str(cfg[k]))
+    from vlib import gen
+    mol = gen.make_mol(cfg["mol"], "sto-3g", rng, jitter=0.05)
+    mol2 = gto.M(atom=mol._atom, unit="Bohr", basis=aug_etb_for_cider(mol, lmax=cfg["lmax"]), verbose=0, spin=mol.spin)
+    atco = ATCBasis(*get_gamma_lists_from_mol(mol2))
+    n0, n1 = cfg["n0n1"]
+    itp = LCAOInterpolator(mol2.atom_coords(unit="Bohr"), atco, n0, n1)
+    d = rng.normal(size=(cfg["npts"], 3))
+    d /= np.linalg.norm(d, axis=1)[:, None]
+    r = cfg["r0"] + cfg["width"] * rng.random(cfg["npts"])
+    coords = np.ascontiguousarray(mol2.atom_coords(unit="Bohr")[cfg["atom"] % mol2.natm] + d * r[:, None])
+    itp.set_coords(coords)
+    rec.tag("max_points_per_spline_interval", ">8192" if int(itp._maxg) > 8192 else "<=8192")
+    rec.note("maxg", int(itp._maxg))
+    ctx = _Ctx(rec, rng)
+    _test_interpolator(ctx, itp, "user-coords-dense", 4)
+    _finish(ctx, cfg)
+
+
 def run_case(case, rec):
     rng = rng_for(case["seed"], PROP_NO, case["idx"])
     kind = case["cfg"]["kind"]
     rec.tag("kind", kind)
-    {"nldf": _run_nldf, "plan": _run_plan, "sdmx": _run_sdmx, "ks": _run_ks}[kind](case, rec, rng)
+    {"nldf": _run_nldf, "plan": _run_plan, "sdmx": _run_sdmx, "ks": _run_ks, "dense": _run_dense}[kind](case, rec, rng)
 
 
 def classify_sanitizer(blocks):
